@@ -516,7 +516,8 @@ class Respondent(httping.Parsent):
                            httping.MOVED_PERMANENTLY,
                            httping.FOUND,
                            httping.SEE_OTHER,
-                           httping.TEMPORARY_REDIRECT):
+                           httping.TEMPORARY_REDIRECT,
+                           httping.PERMANENT_REDIRECT):
             self.redirectant = True
 
         self.headed = True
